@@ -271,11 +271,28 @@ pub fn run(ctx: &mut RunCtx<'_>) -> Option<Violation> {
     let sib_a = sib("SibA", "", Place::SibA, 0);
     let sib_b = sib("SibB", OID_B, Place::SibB, 0);
     let sib_c = sib("SibC", OID_C, Place::SibC, 0);
-    // D13 scenario: a second module with the SAME NAME as SibB but another OID and other values
-    let want_decoy = l.draw(3) == 0 && !of_place(Place::SibB).is_empty();
-    let decoy = if want_decoy && is_lifted("D13") { Some(sib("SibB", OID_B_DECOY, Place::SibB, 7)) } else { None };
+    // D13 scenario: a second module with the SAME NAME as SibB (or as the alias SibC is imported under)
+    // but another OID - or none at all - and other values: the OID named by the import must win
+    let decoy_kind = l.draw(6);
+    let want_decoy = match decoy_kind {
+        0 | 1 => !of_place(Place::SibB).is_empty(),
+        2 => !of_place(Place::SibC).is_empty(),
+        _ => false,
+    };
+    let decoy = if want_decoy && is_lifted("D13") {
+        Some(match decoy_kind {
+            0 => sib("SibB", OID_B_DECOY, Place::SibB, 7),
+            1 => sib("SibB", "", Place::SibB, 11),
+            _ => sib(c_alias, "", Place::SibC, 13),
+        })
+    } else {
+        None
+    };
     if want_decoy && !is_lifted("D13") {
         ctx.counters.inc("known.D13.redirected_draws");
+    }
+    if decoy.is_some() {
+        ctx.counters.inc(["probe.decoy_same_name_other_oid", "probe.decoy_same_name_no_oid", "probe.decoy_alias_name_no_oid"][decoy_kind as usize]);
     }
     let extra = "Unrelated DEFINITIONS AUTOMATIC TAGS ::= BEGIN\n  vref0 INTEGER ::= 424242\n  vref1 INTEGER ::= 424243\n  Other ::= SEQUENCE { a BOOLEAN }\nEND\n".to_string();
     let want_extra = l.draw(3) == 0;
@@ -291,8 +308,7 @@ pub fn run(ctx: &mut RunCtx<'_>) -> Option<Violation> {
         env.push(("SibC", &sib_c));
     }
     if let Some(d) = &decoy {
-        env.push(("SibB-decoy", d));
-        ctx.counters.inc("probe.same_name_other_oid_decoy_loaded");
+        env.push(("decoy", d));
     }
     if want_extra {
         env.push(("Unrelated", &extra));
@@ -373,11 +389,11 @@ pub fn run(ctx: &mut RunCtx<'_>) -> Option<Violation> {
             // E-MISSING: a needed sibling is not loaded
             let drop = 1 + l.draw(env.len() as u64 - 1) as usize;
             let dropped = env[drop].0;
-            if dropped == "Unrelated" || dropped == "SibB-decoy" {
+            if dropped == "Unrelated" || dropped == "decoy" {
                 return None;
             }
-            // (with the decoy loaded, dropping the real SibB leaves a same-named module: skip)
-            if dropped == "SibB" && decoy.is_some() {
+            // (with a decoy loaded, dropping the real sibling leaves a same-named module: skip)
+            if (dropped == "SibB" || dropped == "SibC") && decoy.is_some() {
                 return None;
             }
             let texts: Vec<&String> = env.iter().enumerate().filter(|(i, _)| *i != drop).map(|(_, e)| e.1).collect();
